@@ -1,3 +1,5 @@
--- This module serves as the root of the `UF` library.
--- Import modules here that should be built as part of the library.
-import UF.Basic
+import UF.Basic.Bytes
+import UF.Gen.Facts
+import UF.Model.Rule
+import UF.Model.Match
+import UF.Driver.Wire
